@@ -577,7 +577,8 @@ func assumptions(prop string) []string {
 	return []string{
 		"environment model: simulated API server (optimistic concurrency, status subresource, finalizers, graceful pod deletion, real furiko webhooks), FIFO watch stream per resource, deterministic work queue; see DESIGN.md 2.1 and 5",
 		"watch latency is below the one-second resolution of furiko's deadlines (clock advances only with empty watch FIFOs)",
-		"not modelled: owner-reference garbage collection, informer resync/relist, leader election, multiple replicas",
+		"not modelled: owner-reference garbage collection, watch relist after a broken watch, leader election hand-over between live replicas, several replicas at once; the periodic informer resync only where a scenario says so (listener lag, cold-start restarts)",
+		"concurrency: controller steps are atomic except at the hooked points (queue items, informer deliveries, store operations in preemption scenarios, API calls as fault/crash points); the free-running race pass of the thorough tier backs that assumption",
 		"bounded: workload sizes, deviation budgets (lag, faults, crashes) and horizons as listed per unit",
 	}
 }
